@@ -192,7 +192,7 @@ func solveOne(o *Obligation, dir string, timeoutS int, agree bool, seed int) {
 		// cover.any: unsat only if every alternative is unsat
 		total := int64(0)
 		for i, pc := range o.Alts {
-			if i >= 64 {
+			if i >= 200 {
 				o.Status = "unknown"
 				break
 			}
